@@ -1,1 +1,25 @@
-// access to private items of the parent module (compiled only under --cfg rustdds_verif)
+// access to private items of rtps/rtps_writer_proxy.rs
+use super::*;
+
+impl RtpsWriterProxy {
+  pub(crate) fn verif_digest(&self) -> String {
+    format!(
+      "ack_base={} changes={:?} hb={} an={} last={}",
+      i64::from(self.ack_base),
+      self
+        .changes
+        .iter()
+        .map(|(k, v)| (i64::from(*k), v.is_some()))
+        .collect::<Vec<_>>(),
+      self.received_heartbeat_count,
+      self.sent_ack_nack_count,
+      self.last_received_sequence_number_verif(),
+    )
+  }
+  fn last_received_sequence_number_verif(&self) -> i64 {
+    i64::from(self.last_received_sequence_number)
+  }
+  pub(crate) fn verif_ack_base(&self) -> i64 {
+    i64::from(self.ack_base)
+  }
+}
